@@ -12,8 +12,10 @@ import (
 	"fmt"
 	"os/exec"
 	"reflect"
+	"sort"
 	"runtime/debug"
 	"strings"
+	"sync"
 	"sync/atomic"
 
 	"pault.ag/go/debian/control"
@@ -658,43 +660,67 @@ func permutations(n int) [][]int {
 	return out
 }
 
-// baseGraphs enumerates every (NB, Dep) over n sources.
-func baseGraphs(n int) []In {
-	var out []In
-	nbs := 1 << n
-	for m := 0; m < nbs; m++ {
-		nb := make([]int, n)
-		for i := range nb {
-			nb[i] = 1 + (m>>i)&1
+// graph is the compact form of one base graph: n bytes NB, then the n*(n-1) Dep values of the ordered pairs
+// (i,j), i != j, row by row.
+type graph string
+
+func (g graph) expand(n int) In {
+	in := blank(n)
+	for i := 0; i < n; i++ {
+		in.NB[i] = int(g[i])
+	}
+	k := n
+	for i := 0; i < n; i++ {
+		for j := 0; j < n; j++ {
+			if i != j {
+				in.Dep[i][j] = int(g[k])
+				k++
+			}
 		}
-		// ordered pairs (i,j), i != j
-		type pr struct{ i, j int }
-		var prs []pr
+	}
+	return in
+}
+
+func (g graph) deps(n int) int {
+	d := 0
+	for k := n; k < len(g); k++ {
+		if g[k] != 0 {
+			d++
+		}
+	}
+	return d
+}
+
+// baseGraphs enumerates every (NB, Dep) over n sources.
+func baseGraphs(n int) []graph {
+	var out []graph
+	for m := 0; m < 1<<n; m++ {
+		nb := make([]byte, n)
+		for i := range nb {
+			nb[i] = byte(1 + (m>>i)&1)
+		}
+		// target source of each ordered pair, in row order
+		var tgt []int
 		for i := 0; i < n; i++ {
 			for j := 0; j < n; j++ {
 				if i != j {
-					prs = append(prs, pr{i, j})
+					tgt = append(tgt, j)
 				}
 			}
 		}
-		cur := make([]int, len(prs))
+		cur := make([]byte, len(tgt))
 		for {
-			in := blank(n)
-			copy(in.NB, nb)
-			for k, p := range prs {
-				in.Dep[p.i][p.j] = cur[k]
-			}
-			out = append(out, in)
+			out = append(out, graph(string(nb)+string(cur)))
 			k := 0
-			for k < len(prs) {
+			for k < len(tgt) {
 				cur[k]++
-				if cur[k] <= nb[prs[k].j] {
+				if cur[k] <= nb[tgt[k]] {
 					break
 				}
 				cur[k] = 0
 				k++
 			}
-			if k == len(prs) {
+			if k == len(tgt) {
 				break
 			}
 		}
@@ -740,30 +766,73 @@ var edgeClass = func() []string {
 	return x
 }()
 
+// witnesses collects, across the shards of one scenario, the first 3 violating executions (in enumeration order)
+// per clause+features, so that the artefacts written are the same on every run whatever the worker scheduling.
+type witnesses struct {
+	mu   sync.Mutex
+	best map[string][]witness
+	done int
+}
+
+type witness struct {
+	seq uint64
+	v   *mc.Violation
+}
+
+func (w *witnesses) offer(key string, seq uint64, v *mc.Violation) {
+	w.mu.Lock()
+	defer w.mu.Unlock()
+	if w.best == nil {
+		w.best = map[string][]witness{}
+	}
+	b := append(w.best[key], witness{seq, v})
+	sort.Slice(b, func(i, j int) bool { return b[i].seq < b[j].seq })
+	if len(b) > 3 {
+		b = b[:3]
+	}
+	w.best[key] = b
+}
+
+// shardDone: the shard that finishes last (or any shard finishing after the deadline) hands the collected
+// witnesses to its Stats.
+func (w *witnesses) shardDone(total int, expired bool, st *mc.Stats) {
+	w.mu.Lock()
+	defer w.mu.Unlock()
+	w.done++
+	if w.done < total && !expired {
+		return
+	}
+	keys := make([]string, 0, len(w.best))
+	for k := range w.best {
+		keys = append(keys, k)
+	}
+	sort.Strings(keys)
+	for _, k := range keys {
+		for _, x := range w.best[k] {
+			st.Violate(x.v)
+		}
+	}
+	w.best = nil
+}
+
 // explore runs one scenario: all base graphs over n sources × architecture × the given input orders ×
 // all executions with at most k deviations (field, decoration, unknown dependency, folding).
-func explore(r *mc.Run, name string, n, k int, perms [][]int, permNote string, archs []string, maxDeps int) {
-	var graphs []In
+func explore(r *mc.Run, name string, n, k int, perms [][]int, permNote string, archSet []string, maxDeps int) {
+	var graphs []graph
 	for _, g := range baseGraphs(n) {
-		d := 0
-		for i := range g.Dep {
-			for _, v := range g.Dep[i] {
-				if v != 0 {
-					d++
-				}
-			}
-		}
-		if maxDeps < 0 || d <= maxDeps {
+		if maxDeps < 0 || g.deps(n) <= maxDeps {
 			graphs = append(graphs, g)
 		}
 	}
 	const chunk = 16
 	nsh := (len(graphs) + chunk - 1) / chunk
-	bounds := map[string]interface{}{"sources": n, "binaries_per_source": "1|2", "base_graphs": len(graphs), "architectures": archs,
+	bounds := map[string]interface{}{"sources": n, "binaries_per_source": "1|2", "base_graphs": len(graphs), "architectures": archSet,
 		"input_orders": permNote, "deviation_bound_k": k, "graphs_restricted_to_at_most_dependencies": maxDeps,
 		"deviation_points": "per dependency: field (3), decoration (7); per source: unknown dependency (none/first/last), build-dep fields folded, Binary folded",
 		"decorations":      decoNames}
+	wit := &witnesses{}
 	r.Scenario(name, bounds, nsh, func(sh int, st *mc.Stats) bool {
+		defer func() { wit.shardDone(nsh, r.Expired(), st) }()
 		cache := parseCache{}
 		kept := map[string]int{} // artefacts are built for the first 3 executions per clause+features of a shard; all are counted in the classes
 		lo, hi := sh*chunk, sh*chunk+chunk
@@ -772,7 +841,7 @@ func explore(r *mc.Run, name string, n, k int, perms [][]int, permNote string, a
 		}
 		ok := true
 		for g := lo; g < hi && ok; g++ {
-			base := graphs[g]
+			base := graphs[g].expand(n)
 			cnt := 0
 			_, div := mc.Explore(k, st, func(x *mc.X) {
 				if !ok {
@@ -810,8 +879,8 @@ func explore(r *mc.Run, name string, n, k int, perms [][]int, permNote string, a
 					return
 				}
 				// architecture and input order are FULL choice points: plain loops (every combination is executed)
-				for _, a := range archs {
-					for _, pm := range perms {
+				for ai, a := range archSet {
+					for pi, pm := range perms {
 						in.Arch, in.Perm = a, pm
 						res := evaluate(name, in, rows)
 						st.Evals++
@@ -826,10 +895,11 @@ func explore(r *mc.Run, name string, n, k int, perms [][]int, permNote string, a
 							key := res.clause + "|" + strings.Join(res.feats, ",")
 							if kept[key] < 3 {
 								kept[key]++
-								st.Violate(res.violation()) // built now: in is reused by the next iteration
+								// built now: in is reused by the next iteration
+								wit.offer(key, uint64(g)<<36|uint64(cnt)<<8|uint64(ai)<<5|uint64(pi), res.violation())
 							}
 						}
-						if st.WantSample() && (g*7+cnt)%4099 == 0 && a == archs[1] && pm[0] == n-1 {
+						if st.WantSample() && (g*7+cnt)%4099 == 0 && a == archSet[len(archSet)-1] && pm[0] == n-1 {
 							c := clone(in)
 							st.Sample(map[string]interface{}{"input": c, "model_edges": describe(c, c.modelEdges()), "outcome": res.class, "deviations": x.Deviations()})
 						}
